@@ -131,3 +131,16 @@ var _ merger.TypeURLMap
 //@ callsite addFieldToNodeQuery requires[same-service] atlast(IsEqual, step) == step && atlast(IsEqual, loc) == loc && atlast(IsEqual, step.URL) == loc @props C01
 //@ callsite addFieldToNodeQuery requires[same-insertion-point] lastresult(IsEqual) && atlast(IsEqual, step) == step && sameslice(lastarg(IsEqual, 0), atlast(IsEqual, step.InsertionPoint)) && sameslice(lastarg(IsEqual, 1), insertionPoint) @props C01
 //@ end
+
+// C01: when an interface selection is rewritten per implementation, every response key the client selected
+// survives (only a repeated response key is dropped): the key is the alias, or the name when there is no alias
+//@ assume-nonnil-elems *ast.Field
+//@ define respKey(f *ast.Field) string = ite(f.Alias == "", f.Name, f.Alias)
+
+//@ func selectionSetToFieldsRepresentation
+//@ props C01
+//@ loop 0 invariant[own] base(res) == 0 || fresh(res)
+//@ loop 0 invariant[sel] forall(m, 0, len(res), is(res[m], *ast.Field) && res[m].(*ast.Field) != nil)
+//@ loop 0 invariant[uniq] uniq != nil && forallT(n, string, has(uniq, n) ==> exists(m, 0, len(res), respKey(res[m].(*ast.Field)) == n)) @using uniq, sel, own
+//@ loop 0 invariant[keys-kept] forall(i, 0, it, exists(m, 0, len(res), respKey(res[m].(*ast.Field)) == respKey(fields[i]))) @using keys-kept, uniq, sel, own
+//@ end
